@@ -382,6 +382,22 @@ def writeData (buf : Bytes) : Step Unit := fun s =>
         account { s with inner := .compressor m l enc (pending ++ buf) }
       | .closed => pure (.error (.io .brokenPipe), s)
 
+/-- `impl Write for ZipWriter`: `flush` forwards to the current inner writer; a closed writer answers
+`BrokenPipe`.  Stored and unencrypted (also: no entry open, extra-data mode, a raw copy): the sink's own
+`flush`, one I/O call.  Stored under ZipCrypto: `ZipCryptoWriter::flush` is `Ok(())`, no I/O.  An encoder
+(flate2 / bzip2 / zstd): its `flush` ends the current block and hands the compressed bytes so far to the
+layer below; the writer state of this model does not change, and the byte stream the entry ends up with is
+the parameter `ext.compress` - in the correspondence the codec library run with the same flush points.  On a
+fault-free sink an encoder's flush cannot fail; the sink calls it makes under an injected fault are NOT
+modelled (the fault stream flushes stored entries and closed writers only).  `flush` is outside the call
+alphabet `Props.C12.Call`; `Props.C12.flush_*` state what holds of it. -/
+def flushWriter : Step Unit := fun s =>
+  match s.inner with
+  | .closed => pure (.error (.io .brokenPipe), s)
+  | .storer none => io s M.flush fun _ => pure (.ok (), s)
+  | .storer (some _) => pure (.ok (), s)
+  | .compressor _ _ _ _ => pure (.ok (), s)
+
 /-- `end_local_start_central_extra_data` -/
 def endLocalStartCentral (ext : WExt) : Step Nat := fun s => do
   let (r, s) ← endExtraData ext s
@@ -461,7 +477,7 @@ def addSymlink (ext : WExt) (name target : Bytes) (o : FileOptions) : Step Unit 
 /-- `raw_copy_file_rename`: `src` is the source entry's metadata, `raw` what its raw reader delivers. -/
 def rawCopy (ext : WExt) (src : FileData) (raw : Bytes) (name : Bytes) : Step Unit := fun s => do
   let big := (if src.compressedSize ≥ src.uncompressedSize then src.compressedSize
-              else src.uncompressedSize) > ZIP64_BYTES_THR
+              else src.uncompressedSize) ≥ ZIP64_BYTES_THR
   let o : FileOptions := {
     method := src.method, level := none, time := src.time,
     permissions := src.unixMode, largeFile := big, encryptWith := none }
